@@ -1,5 +1,6 @@
 """Property -> rules table, with the clause accounting that goes into the evidence files."""
 import rules_dispatch  # noqa: F401  (registers rules)
+import rules_serial  # noqa: F401
 
 COMMON_ASSUME = [
     "clang 14 front end parses /repo as g++ 12 compiles it (same flags, -std=gnu++17, -UNDEBUG)",
@@ -8,6 +9,23 @@ COMMON_ASSUME = [
 ]
 
 PROPS = {
+    "C06": {
+        "rules": ["R-MIRROR", "R-EXTENT", "R-TAGS", "R-DISPATCH", "R-PADDING"],
+        "explanation": "Writer/reader agreement decided statically for every save/load pair in the cone of classes the 13 kinds persist "
+                       "(rapid type analysis from their constructors) plus libcds classes named in C19: both halves are abstracted to "
+                       "ordered trees of stream elements whose sizes are symbolic expressions over earlier image values, and compared "
+                       "element by element (canonical polynomial form, else exhaustive evaluation of the two source expressions on a grid). "
+                       "Allocation extents are compared with saved counts, tag dispatchers with the tags the savers write.",
+        "decided": ["reader consumes exactly what the writer emits: width, count, nested class, guards, loops, field identity (R-MIRROR)",
+                    "saved byte count equals allocated byte count in every building constructor (R-EXTENT)",
+                    "kind tags: distinct, checked before anything else, generic loader arm per kind (R-TAGS)",
+                    "libcds/Hash family dispatchers: arm per persisted class, tag equals the tag its save writes, peek restores position, no other seeking (R-DISPATCH)",
+                    "no padded type is moved as raw bytes (R-PADDING)"],
+        "not_decided": ["state recomputed at load (RRR sampling, HashBdh/HashBBdh compaction, DecodingTree::buildTree) equals the built state (value-level)",
+                        "counts that depend on container sizes not present in the image are compared structurally only (listed as undecided in the evidence)",
+                        "the generic loader's absolute seekg(0) assumes the image starts the stream (outside the self-delimiting clause, which is stated for a kind's own loader)"],
+        "assumptions": COMMON_ASSUME,
+    },
     "C16": {
         "rules": ["R-STUB", "R-TAGS"],
         "explanation": "Static AST/CFG rules over every translation unit of /repo: the 45 unsupported-operation bodies are "
